@@ -531,3 +531,82 @@ def paths(fi: FunctionInfo, bindings: Optional[Dict[str, object]] = None) -> Lis
     if pe.truncated:
         raise AnalysisError(f"too many paths through {fi.qualname}")
     return out
+
+
+def split_ifexp(ps: List[Path]) -> List[Path]:
+    """conditional expressions inside returned values / stored values become
+    separate paths (so `return a if c else b` and `if c: return a; return b`
+    are read alike)"""
+    from engine.util import clone_ast
+
+    out = []
+    work = list(ps)
+    guard = 0
+    while work and guard < 500:
+        guard += 1
+        p = work.pop(0)
+        tgt = None
+        if isinstance(p.ret, ast.AST):
+            for n in ast.walk(p.ret):
+                if isinstance(n, ast.IfExp):
+                    tgt = ("ret", None, n)
+                    break
+        if tgt is None:
+            for k, v in p.stores.items():
+                for n in ast.walk(v):
+                    if isinstance(n, ast.IfExp):
+                        tgt = ("store", k, n)
+                        break
+                if tgt:
+                    break
+        if tgt is None:
+            out.append(p)
+            continue
+        kind, key, node = tgt
+        for truth, pick in ((True, node.body), (False, node.orelse)):
+            q = p.fork()
+
+            class R(ast.NodeTransformer):
+                def visit_IfExp(s_, n):
+                    if ast.dump(n) == ast.dump(node):
+                        return clone_ast(pick)
+                    return s_.generic_visit(n)
+
+            if kind == "ret":
+                q.ret = R().visit(clone_ast(p.ret))
+            else:
+                q.stores[key] = R().visit(clone_ast(p.stores[key]))
+            q.conds = q.conds + tuple(sorted(atoms(node.test, truth)))
+            work.append(q)
+    return out
+
+
+def inline_helpers(repo, fi: FunctionInfo, x: ast.AST, depth: int = 0) -> ast.AST:
+    """replace calls of repository functions that have a single unconditional
+    path by what they return (parameters bound to the arguments)"""
+    from engine.util import clone_ast
+
+    if depth > 3 or not isinstance(x, ast.AST):
+        return x
+
+    class R(ast.NodeTransformer):
+        def visit_Call(s_, n):
+            s_.generic_visit(n)
+            probe = clone_ast(n)
+            if isinstance(probe.func, ast.Name) and probe.func.id.endswith("__def"):
+                probe.func.id = probe.func.id[:-5]
+            callee = resolve_call(repo, fi, probe)
+            if callee is None or callee.name == "__init__" or callee.cls is not None:
+                return n
+            b = bind(n, callee.named_params)
+            if any(isinstance(a, ast.Starred) for a in n.args):
+                return n
+            try:
+                ps = [p for p in paths(callee, b) if p.ret != RAISE]
+            except AnalysisError:
+                return n
+            if len(ps) == 1 and not ps[0].conds and isinstance(ps[0].ret, ast.AST):
+                return inline_helpers(repo, callee, ps[0].ret, depth + 1)
+            return n
+
+    return R().visit(clone_ast(x))
